@@ -11,7 +11,7 @@ import json, os, re, shutil, subprocess, sys, threading, queue
 
 V = '/verif'
 ENV = dict(os.environ, GOFLAGS='-mod=mod', GOPROXY='off', GOSUMDB='off', GOTOOLCHAIN='local')
-WORKERS = int(os.environ.get('SELFTEST_WORKERS', '4'))
+WORKERS = int(os.environ.get('SELFTEST_WORKERS', '8'))
 
 
 def main():
